@@ -663,11 +663,26 @@ func (d *Driver) judgeC11() {
 					continue
 				}
 				d.judgedInc("C11")
+				// the expiry handler run that demoted: the latest one that started before the falling edge
+				var expOrd uint64
+				for _, x := range d.h.Expiries {
+					if x.Ord < t.Fall.Ord {
+						expOrd = x.Ord
+					}
+				}
 				var td time.Duration = -1
 				for _, n := range notifs {
-					// strictly earlier in virtual time: a notification arriving at the very instant of the
-					// expiry races with a demotion that is already under way (no implementation can order them)
-					if n.Kind == ADisconnect && n.T < t.End {
+					// the latest disconnect notification whose handler had returned when that expiry
+					// handler started (a notification that arrives while the expiry is already under way
+					// races with it; no implementation can order them)
+					if n.Kind != ADisconnect {
+						continue
+					}
+					if expOrd > 0 {
+						if n.DoneOrd > 0 && n.DoneOrd < expOrd {
+							td = n.T
+						}
+					} else if n.T < t.End {
 						td = n.T
 					}
 				}
@@ -893,6 +908,18 @@ func (d *Driver) judgeC10prompt() {
 			s := s0
 			if y.startedAt > s {
 				s = y.startedAt
+			}
+			// plans of the family that stall goroutines do so in a bounded initial window
+			// (stalled processes are not "fault-free conditions"): the clause is judged from the
+			// moment the last stall has ended
+			if p.Sched.StallMax > 0 {
+				if p.Sched.StallUntil == 0 {
+					s0 = -1
+					return
+				}
+				if q := p.Sched.StallUntil + p.Sched.StallMax; q > s {
+					s = q
+				}
 			}
 			s0 = -1
 			if s >= end || s+3*p.H+slack >= d.endAt {
